@@ -62,6 +62,8 @@ Spelling == [
   syntax |-> <<"proto2", "proto3", "editions">>,
   whitespace |-> <<"normal", "compact", "airy", "tabs">>,
   import_order |-> <<"sorted", "reversed", "duplicate", "duplicate_first">>,
+  \* the modifier of the import of google/protobuf/duration.proto (imports are sorted by name; a modifier survives)
+  import_modifier |-> <<"plain", "weak", "public">>,
   option_order |-> <<"sorted", "custom_first", "reversed", "many">>,
   lit_nested_brackets |-> <<"braces", "angles">>,
   lit_sep |-> <<"comma", "none", "semicolon">>,
